@@ -91,6 +91,8 @@ pub struct GenCfg {
     pub group_arr: bool,
     pub end_inside: bool,
     pub emit_in_andis_rhs: bool,
+    /// item sources joined by then and consumed as one IterParser (or_not / into_iter / repeated)
+    pub iter_then: bool,
     /// nested_in over group tokens (token-tree inputs, C16)
     pub nested: bool,
 }
@@ -133,6 +135,7 @@ impl GenCfg {
             group_arr: true,
             end_inside: true,
             emit_in_andis_rhs: false,
+            iter_then: false,
             nested: false,
         }
     }
@@ -162,6 +165,7 @@ impl GenCfg {
     pub fn c02() -> GenCfg {
         let mut c = GenCfg::c01();
         c.rep = true;
+        c.iter_then = true;
         c.folds = true;
         c.exactly = true;
         c.cfg_rep = true;
@@ -435,7 +439,31 @@ impl<'t, 'd> GGen<'t, 'd> {
                 }
             }
             10 => {
-                if self.cfg.exactly && self.t.chance(1, 8) {
+                if self.cfg.iter_then && self.t.chance(1, 7) {
+                    // one or two item sources joined by then, consumed as one IterParser
+                    let n = 1 + self.t.pick(2);
+                    let mut parts = vec![];
+                    let mut g2 = guarded;
+                    for _ in 0..n {
+                        let part = match self.t.weighted(&[4, 3, 2]) {
+                            0 => {
+                                let mut r = self.gen_rep(d, g2);
+                                r.sink = Sink::Vec;
+                                r.cfg = false;
+                                r.ctxb = 0;
+                                if r.lo > r.hi.unwrap_or(255) {
+                                    r.hi = Some(r.lo);
+                                }
+                                G::Rep(r)
+                            }
+                            1 => G::OrNot(b(self.gen(d, g2))),
+                            _ => G::IntoIter(b(self.gen(d, g2)), 0),
+                        };
+                        g2 = g2 || part.must_consume();
+                        parts.push(part);
+                    }
+                    G::IterThen(parts, self.t.pick(2) as u8)
+                } else if self.cfg.exactly && self.t.chance(1, 8) {
                     // an IterParser that is not a repetition: into_iter() over the items of a value
                     let a = self.gen(d, guarded);
                     let k = self.t.weighted(&[2, 1, 1, 2, 2, 2, 1]) as u8;
@@ -801,7 +829,7 @@ pub fn sample(g: &G, t: &mut Tape, alpha: &[char], out: &mut Vec<char>, recs: &m
             sample(a, t, alpha, out, recs, depth);
             sample(c, t, alpha, out, recs, depth);
         }
-        Group(v) | GroupArr(v) => v.iter().for_each(|x| sample(x, t, alpha, out, recs, depth)),
+        Group(v) | GroupArr(v) | IterThen(v, _) => v.iter().for_each(|x| sample(x, t, alpha, out, recs, depth)),
         Or(a, c) => {
             if t.chance(1, 2) {
                 sample(c, t, alpha, out, recs, depth)
